@@ -10,13 +10,31 @@ use serde_json::json;
 use std::collections::BTreeMap;
 use vh::*;
 
+/// Some forward to another context has neither a matching receive nor a recorded drop.
+fn undelivered_without_drop(out: &RunOut) -> bool {
+    let mut got: std::collections::BTreeSet<(String, String, i64)> = Default::default();
+    let mut gone: std::collections::BTreeSet<(String, String, i64)> = Default::default();
+    for t in &out.trace {
+        match t.kind {
+            "recv" => {
+                got.insert((t.ctx.clone(), t.event_type.clone(), t.id));
+            }
+            "dropped" => {
+                gone.insert((t.target.clone(), t.event_type.clone(), t.id));
+            }
+            _ => {}
+        }
+    }
+    out.trace.iter().any(|t| t.kind == "forward" && t.ctx != t.target && !got.contains(&(t.target.clone(), t.event_type.clone(), t.id)) && !gone.contains(&(t.target.clone(), t.event_type.clone(), t.id)))
+}
+
 fn main() {
     let args = Args::parse();
     install_quiet_panic_hook();
     watchdog("C26", args.pick(1500, 14400));
     let mut rep = Report::new("C26", "exploration", &args);
-    rep.rule = "programs with 2-3 contexts and 1-2 chains of 2-3 streams using the documented cross-context form (.context(a) .. .emit(context: b, ..) feeding a derived stream in b; one producer in three uses a plain emit instead, so that the event must reach the other context through the orchestrator's routing table), pass-through, count-window or aliased-sequence (`S as a -> S as b`) consumers with uid fingerprints; 30-300 input events; channel capacity from {1,2,4,16,1000}; hook H7 injects seeded yields/sleeps at recv / forward / barrier. Non-trivial: run with >=20 cross-context events and >=1 forward that observed a full target queue; distinct by hash of the recorded order of (context, kind) trace entries (= distinct interleavings actually seen).".into();
-    rep.assume("a forwarded event that is never received counts as lost only when the forward observed a full target queue (the drop mechanism); otherwise a missing receive after the quiescence bound is inconclusive");
+    rep.rule = "programs with 2-3 contexts and 1-2 chains of 2-3 streams using the documented cross-context form (.context(a) .. .emit(context: b, ..) feeding a derived stream in b; one producer in three uses a plain emit instead, so that the event must reach the other context through the orchestrator's routing table), pass-through, count-window or aliased-sequence (`S as a -> S as b`) consumers with uid fingerprints; 30-300 input events; channel capacity from {1,2,4,16,1000}; hook H7 injects seeded yields/sleeps at recv / forward / barrier. Non-trivial: run with >=20 cross-context events and >=1 forward whose try_send failed; distinct by hash of the recorded order of (context, kind) trace entries (= distinct interleavings actually seen).".into();
+    rep.assume("a forwarded event that is never received counts as lost when hook H7 recorded that its try_send failed (the drop mechanism); an enqueued event that is still not received after the run was repeated with quiescence windows of 1 s and 4 s is inconclusive");
     rep.assume("H7 is process-global: runs are serialised; the context threads themselves run truly in parallel");
     #[cfg(not(varpulis_verif))]
     rep.inconclusive("built without --cfg varpulis_verif");
@@ -41,9 +59,21 @@ fn main() {
             perturb_max_us: *rng.pick(&[1u64, 20, 200]),
             seed: rng.next_u64(),
             checkpoints_at: vec![],
+            stable_ms: 120,
         };
         rep.eval();
-        let out = run_contexts(&p, &events, &cfg);
+        let mut cfg = cfg;
+        let mut out = run_contexts(&p, &events, &cfg);
+        // an event that was enqueued (no recorded drop) but not yet received when the trace went quiet means the
+        // machine was too busy for the quiescence window: run again with a longer one instead of judging
+        for longer in [1000u64, 4000] {
+            if out.build_error.is_some() || (out.quiesced && !undelivered_without_drop(&out)) {
+                break;
+            }
+            rep.add("reruns_with_longer_quiescence_window", 1);
+            cfg.stable_ms = longer;
+            out = run_contexts(&p, &events, &cfg);
+        }
         if let Some(e) = &out.build_error {
             rep.add("programs_rejected", 1);
             if rep.samples.len() < 2 {
@@ -55,12 +85,16 @@ fn main() {
         // ---- (i) exactly-once, in order, per (producer ctx -> consumer ctx, stream type) ----
         let mut fwd: BTreeMap<(String, String, String), Vec<(i64, usize)>> = BTreeMap::new(); // (from,to,type) -> [(uid, capacity)]
         let mut rcv: BTreeMap<(String, String), Vec<i64>> = BTreeMap::new(); // (ctx,type) -> uids
+        let mut dropped: std::collections::BTreeSet<(String, String, String, i64)> = Default::default(); // try_send failed
         let mut order_hash = vec![];
         for t in &out.trace {
             order_hash.push((t.ctx.clone(), t.kind));
             match t.kind {
                 "forward" => fwd.entry((t.ctx.clone(), t.target.clone(), t.event_type.clone())).or_default().push((t.id, t.target_capacity)),
                 "recv" => rcv.entry((t.ctx.clone(), t.event_type.clone())).or_default().push(t.id),
+                "dropped" => {
+                    dropped.insert((t.ctx.clone(), t.target.clone(), t.event_type.clone(), t.id));
+                }
                 _ => {}
             }
         }
@@ -72,7 +106,7 @@ fn main() {
                 continue; // intra-context forward: judged by the output clause
             }
             run_cross += sent.len() as u64;
-            run_full += sent.iter().filter(|(_, c)| *c == 0).count() as u64;
+            run_full += sent.iter().filter(|(u, _)| dropped.contains(&(from.clone(), to.clone(), ty.clone(), *u))).count() as u64;
             let got = rcv.get(&(to.clone(), ty.clone())).cloned().unwrap_or_default();
             let sent_uids: Vec<i64> = sent.iter().map(|(u, _)| *u).collect();
             // duplicates
@@ -89,16 +123,20 @@ fn main() {
             // losses
             let missing: Vec<(i64, usize)> = sent.iter().filter(|(u, _)| !got.contains(u)).cloned().collect();
             if !missing.is_empty() {
-                if missing.iter().any(|(_, c)| *c == 0) {
+                let was_dropped = |u: i64| dropped.contains(&(from.clone(), to.clone(), ty.clone(), u));
+                if missing.iter().any(|(u, _)| was_dropped(*u)) {
                     rep.violation(
                         "cross-context/lost-on-full-queue",
-                        "an event forwarded to another context was never received; the forward had observed a full target queue (try_send result ignored)",
+                        "an event forwarded to another context was never received; its try_send into the target context's full queue failed and the result is ignored",
                         wit(json!({"from": from, "to": to, "type": ty, "sent": sent.len(), "received": got.len(), "missing_uids_with_observed_capacity": missing.iter().take(10).collect::<Vec<_>>()})),
                     );
-                } else if out.quiesced {
-                    rep.inconclusive("events forwarded with free capacity were not received within the quiescence bound");
-                } else {
-                    rep.inconclusive("run did not quiesce within its bound");
+                }
+                if missing.iter().any(|(u, _)| !was_dropped(*u)) {
+                    if out.quiesced {
+                        rep.inconclusive("events enqueued for another context (no recorded drop) were not received although the trace stayed quiet for 4 s");
+                    } else {
+                        rep.inconclusive("run did not quiesce within its bound");
+                    }
                 }
             }
         }
@@ -139,11 +177,11 @@ fn main() {
             Err(e) => rep.inconclusive(&format!("plain engine rejected the context-free program: {}", e)),
         }
         if rep.samples.len() < 2 {
-            rep.sample(json!({"program": p.vpl(true), "events": events.len(), "capacity": cfg.capacity, "trace_entries": out.trace.len(), "cross_context_events": run_cross, "forwards_seeing_full_queue": run_full}));
+            rep.sample(json!({"program": p.vpl(true), "events": events.len(), "capacity": cfg.capacity, "trace_entries": out.trace.len(), "cross_context_events": run_cross, "forwards_dropped_on_full_queue": run_full}));
         }
     }
     rep.set("distinct_interleavings_seen", json!(interleavings.len()));
-    rep.set("forwards_seeing_full_queue", json!(full_queue_episodes));
+    rep.set("forwards_dropped_on_full_queue", json!(full_queue_episodes));
     rep.set("cross_context_events", json!(cross_events));
     std::process::exit(rep.finish());
 }
